@@ -237,6 +237,42 @@ theorem runSeq_spec (esc : Bytes → Bytes) (base : Scenario) :
       simp only [runSeq, runSeqRef, stepS]
       rw [c1, ih _ (CInv.ofScopes scopes c3), c2]
 
+theorem runActs_spec (esc : Bytes → Bytes) (sc : Scenario) :
+    ∀ (acts : List Act) (st : CState), CInv esc sc st →
+      (runActs esc sc st acts).1 = (refRets esc sc st.fams acts).1 ∧
+      (runActs esc sc st acts).2.fams = (refRets esc sc st.fams acts).2 ∧
+      CInv esc sc (runActs esc sc st acts).2 := by
+  intro acts
+  induction acts with
+  | nil => intro st h; exact ⟨rfl, rfl, h⟩
+  | cons a rest ih =>
+    intro st h
+    cases a with
+    | init =>
+      obtain ⟨t1, t2, t3⟩ := initTarget_spec esc sc st h
+      obtain ⟨r1, r2, r3, r4, r5⟩ := initRes_spec esc sc _ t1
+      obtain ⟨i1, i2, i3⟩ := ih _ r1
+      simp only [runActs, actS, refRets]
+      rw [r2, t2] at i1 i2
+      refine ⟨?_, i2, i3⟩
+      rw [i1, r4, r3, t3, r5]
+    | scopeInfo s =>
+      obtain ⟨c1, c2, _, c4⟩ := scopeInfoCached_spec esc sc.cfg.legacy st s h.scopes
+      have h' : CInv esc sc (scopeInfoCached esc sc.cfg.legacy st s).1 := by
+        obtain ⟨_, _, c3, _⟩ := scopeInfoCached_spec esc sc.cfg.legacy st s h.scopes
+        obtain ⟨a1, a2, a3⟩ := c3
+        exact ⟨c4, ⟨fun hh => h.top.dis (a2 ▸ hh), fun hh => a2 ▸ h.top.nod hh, fun t hh => h.top.tgt t (a1 ▸ hh), a3 ▸ h.top.res⟩⟩
+      obtain ⟨i1, i2, i3⟩ := ih _ h'
+      simp only [runActs, actS, refRets]
+      rw [c2] at i1 i2
+      exact ⟨by rw [i1, c1], i2, i3⟩
+    | validate n d t =>
+      have h' : CInv esc sc { st with fams := (validate st.fams n d t).1 } :=
+        ⟨h.scopes.withFams _, ⟨h.top.dis, h.top.nod, h.top.tgt, h.top.res⟩⟩
+      obtain ⟨i1, i2, i3⟩ := ih _ h'
+      simp only [runActs, actS, refRets]
+      exact ⟨by rw [i1], i2, i3⟩
+
 /-! ### attribute.NewSet as "last value wins" -/
 
 theorem setInsert_lookup (x : KV) (k : Bytes) : ∀ s : List KV,
@@ -301,5 +337,195 @@ theorem scopeInfoAttrs_lookup (k : ScopeKey) :
   have e1 : (x == scopeNameLabel) = false := by simpa using hx1
   have e2 : (x == scopeVersionLabel) = false := by simpa using hx2
   simp [e1, e2]
+
+/-! ### attribute.NewSet: strictly sorted by key, members come from the input -/
+
+def KeyLt (a c : KV) : Prop := bytesLe a.1 c.1 = true ∧ a.1 ≠ c.1
+
+theorem setInsert_mem (x : KV) : ∀ (s : List KV) (c : KV), c ∈ setInsert x s → c = x ∨ c ∈ s := by
+  intro s
+  induction s with
+  | nil => intro c h; simp [setInsert] at h; exact Or.inl h
+  | cons y ys ih =>
+    intro c h
+    unfold setInsert at h
+    split at h
+    · rcases List.mem_cons.mp h with h | h
+      · exact Or.inl h
+      · exact Or.inr (List.mem_cons_of_mem _ h)
+    · split at h
+      · rcases List.mem_cons.mp h with h | h
+        · exact Or.inl h
+        · exact Or.inr h
+      · rcases List.mem_cons.mp h with h | h
+        · exact Or.inr (by simp [h])
+        · rcases ih c h with h | h
+          · exact Or.inl h
+          · exact Or.inr (List.mem_cons_of_mem _ h)
+
+theorem setInsert_sorted (x : KV) : ∀ s : List KV, s.Pairwise KeyLt → (setInsert x s).Pairwise KeyLt := by
+  intro s
+  induction s with
+  | nil => intro _; simp [setInsert]
+  | cons y ys ih =>
+    intro h
+    obtain ⟨hy, hys⟩ := List.pairwise_cons.mp h
+    unfold setInsert
+    by_cases h1 : (x.1 == y.1) = true
+    · have e : x.1 = y.1 := eq_of_beq h1
+      simp only [h1, if_true]
+      refine List.pairwise_cons.mpr ⟨?_, hys⟩
+      intro c hc
+      have := hy c hc
+      unfold KeyLt at this ⊢
+      rw [e]; exact this
+    · have h1' : (x.1 == y.1) = false := by simpa using h1
+      have hne : x.1 ≠ y.1 := by simpa using h1'
+      simp only [h1', Bool.false_eq_true, if_false]
+      by_cases h2 : bytesLe x.1 y.1 = true
+      · simp only [h2, if_true]
+        refine List.pairwise_cons.mpr ⟨?_, h⟩
+        intro c hc
+        rcases List.mem_cons.mp hc with rfl | hc
+        · exact ⟨h2, hne⟩
+        · obtain ⟨l1, l2⟩ := hy c hc
+          refine ⟨bytesLe_trans _ _ _ h2 l1, ?_⟩
+          intro e
+          rw [e] at h2
+          exact l2 (bytesLe_antisymm _ _ l1 h2)
+      · have h2' : bytesLe x.1 y.1 = false := by simpa using h2
+        simp only [h2', Bool.false_eq_true, if_false]
+        refine List.pairwise_cons.mpr ⟨?_, ih hys⟩
+        intro c hc
+        rcases setInsert_mem x ys c hc with rfl | hc
+        · refine ⟨?_, fun e => hne e.symm⟩
+          rcases bytesLe_total c.1 y.1 with t | t
+          · rw [t] at h2'; cases h2'
+          · exact t
+        · exact hy c hc
+
+theorem newSet_fold_props : ∀ (l acc : List KV), acc.Pairwise KeyLt →
+    (l.foldl (fun s x => setInsert x s) acc).Pairwise KeyLt ∧
+    ∀ c ∈ l.foldl (fun s x => setInsert x s) acc, c ∈ l ∨ c ∈ acc := by
+  intro l
+  induction l with
+  | nil => intro acc h; exact ⟨h, fun c hc => Or.inr hc⟩
+  | cons x r ih =>
+    intro acc h
+    obtain ⟨i1, i2⟩ := ih (setInsert x acc) (setInsert_sorted x acc h)
+    refine ⟨i1, ?_⟩
+    intro c hc
+    rcases i2 c hc with h | h
+    · exact Or.inl (List.mem_cons_of_mem _ h)
+    · rcases setInsert_mem x acc c h with h | h
+      · exact Or.inl (by simp [h])
+      · exact Or.inr h
+
+theorem newSet_keys_nodup (l : List KV) : ((newSet l).map (·.1)).Nodup := by
+  have h := (newSet_fold_props l [] List.Pairwise.nil).1
+  unfold List.Nodup
+  rw [List.pairwise_map]
+  exact h.imp (fun hk => hk.2)
+
+theorem newSet_mem (l : List KV) : ∀ c ∈ newSet l, c ∈ l := by
+  intro c hc
+  rcases (newSet_fold_props l [] List.Pairwise.nil).2 c hc with h | h
+  · exact h
+  · simp at h
+
+theorem joinSemi_valid : ∀ vs : List Bytes, (∀ v ∈ vs, Utf8.validString v = true) → Utf8.validString (joinSemi vs) = true
+  | [], _ => by decide
+  | [x], h => by simpa [joinSemi] using h x (by simp)
+  | x :: y :: r, h => by
+    have hx := h x (by simp)
+    have hsemi : Utf8.validString [59] = true := by decide
+    have : joinSemi (x :: y :: r) = x ++ ([59] ++ joinSemi (y :: r)) := by simp [joinSemi]
+    rw [this, validString_append hx, validString_append hsemi]
+    exact joinSemi_valid (y :: r) (fun v hv => h v (List.mem_cons_of_mem _ hv))
+
+/-! ### which attributes the scope info metric carries -/
+
+theorem scopeInfoAttrs_nodup (k : ScopeKey) : ((scopeInfoAttrs k).map (·.1)).Nodup := newSet_keys_nodup _
+
+/-- every pair of the set is the name pair, the version pair, or a scope attribute that is not overwritten -/
+theorem scopeInfoAttrs_mem (s : Scope) : ∀ c ∈ scopeInfoAttrs s.key,
+    c = (scopeNameLabel, s.name) ∨ c = (scopeVersionLabel, s.version) ∨ c ∈ Spec.scopeOwnAttrs s := by
+  intro c hc
+  obtain ⟨l1, l2, _⟩ := scopeInfoAttrs_lookup s.key
+  have hl : (scopeInfoAttrs s.key).lookup c.1 = some c.2 :=
+    (mem_iff_lookup _ c.1 c.2 (scopeInfoAttrs_nodup s.key)).mp hc
+  by_cases h1 : c.1 = scopeNameLabel
+  · left
+    rw [h1, l1] at hl
+    have : c.2 = s.name := (Option.some.inj hl).symm
+    exact Prod.ext h1 this
+  · by_cases h2 : c.1 = scopeVersionLabel
+    · right; left
+      rw [h2, l2] at hl
+      have : c.2 = s.version := (Option.some.inj hl).symm
+      exact Prod.ext h2 this
+    · right; right
+      have hm := newSet_mem _ c hc
+      rcases List.mem_append.mp hm with hm | hm
+      · unfold Spec.scopeOwnAttrs
+        exact List.mem_filter.mpr ⟨hm, by simp [h1, h2]⟩
+      · simp only [List.mem_cons, List.not_mem_nil, or_false] at hm
+        rcases hm with rfl | rfl
+        · exact absurd rfl h1
+        · exact absurd rfl h2
+
+/-- … and all of those are in the set (scope attribute keys distinct: attribute.Set) -/
+theorem scopeInfoAttrs_complete (s : Scope) (hnd : (s.attrs.map (·.1)).Nodup) :
+    (scopeNameLabel, s.name) ∈ scopeInfoAttrs s.key ∧ (scopeVersionLabel, s.version) ∈ scopeInfoAttrs s.key ∧
+    ∀ c ∈ Spec.scopeOwnAttrs s, c ∈ scopeInfoAttrs s.key := by
+  obtain ⟨l1, l2, l3⟩ := scopeInfoAttrs_lookup s.key
+  refine ⟨lookup_mem _ _ _ l1, lookup_mem _ _ _ l2, ?_⟩
+  intro c hc
+  unfold Spec.scopeOwnAttrs at hc
+  obtain ⟨hm, hk⟩ := List.mem_filter.mp hc
+  simp only [Bool.and_eq_true, bne_iff_ne, ne_eq] at hk
+  have hrev : (s.attrs.reverse.map (·.1)).Nodup := by
+    rw [List.map_reverse]; unfold List.Nodup; rw [List.pairwise_reverse]; exact hnd.imp (fun h => Ne.symm h)
+  have hlr : s.attrs.reverse.lookup c.1 = some c.2 :=
+    (mem_iff_lookup _ c.1 c.2 hrev).mp (List.mem_reverse.mpr hm)
+  have := l3 c.1 hk.1 hk.2
+  show (c.1, c.2) ∈ scopeInfoAttrs s.key
+  exact lookup_mem _ _ _ (this.trans hlr)
+
+/-! ### exemplar labels: a Go map filled in slice order, then trace_id / span_id -/
+
+theorem setLabel_lookup (k' v : Bytes) (k : Bytes) : ∀ m : List KV,
+    (setLabel m k' v).lookup k = if k == k' then some v else m.lookup k := by
+  intro m
+  induction m with
+  | nil => simp [setLabel, List.lookup_cons]; split <;> simp_all
+  | cons y ys ih =>
+    obtain ⟨yk, yv⟩ := y
+    unfold setLabel
+    by_cases h1 : (yk == k') = true
+    · have e : yk = k' := eq_of_beq h1
+      subst e
+      simp only [beq_self_eq_true, if_true, List.lookup_cons]
+      cases hk : k == yk <;> simp
+    · have h1' : (yk == k') = false := by simpa using h1
+      simp only [h1', Bool.false_eq_true, if_false, List.lookup_cons, ih]
+      cases hk : k == yk with
+      | false => simp
+      | true =>
+        have e : k = yk := eq_of_beq hk
+        subst e
+        simp [h1']
+
+theorem setLabel_fold_lookup (esc : Bytes → Bytes) (k : Bytes) : ∀ (l : List KV) (acc : List KV),
+    (l.foldl (fun m kv => setLabel m (esc kv.1) kv.2) acc).lookup k =
+      ((l.map fun kv => (esc kv.1, kv.2)).reverse.lookup k).or (acc.lookup k) := by
+  intro l
+  induction l with
+  | nil => intro acc; simp
+  | cons x r ih =>
+    intro acc
+    simp only [List.foldl_cons, ih, setLabel_lookup, List.map_cons, List.reverse_cons, List.lookup_append,
+      List.lookup_cons, List.lookup_nil]
+    cases (List.map (fun kv => (esc kv.1, kv.2)) r).reverse.lookup k <;> cases hk : k == esc x.1 <;> simp
 
 end Otel.C18
